@@ -960,3 +960,88 @@ package pongo2
 //@   at strconv.FormatInt requires {C07} @integers-in-decimal arg1 == 10 && arg0 == RVInt(Resolved(v.val))
 //@   at strconv.FormatUint requires {C07} @unsigned-in-decimal arg1 == 10
 //@   at fmt.Sprintf requires {C07} @floats-with-six-decimals arg0 == "%f" && len(arg1) == 1 && typeis(arg1[0], "float64") && unbox(arg1[0], "float64") == RVFloat(Resolved(v.val))
+
+// ---- autoescape: what may reach the output (C02) ----
+// Every call that writes to the output must be classified by a clause of the calling function:
+// template text, a number, the result of the escape filter, the output of a body executed under the
+// same rules, or an explicit opt-out.
+//@ sinks {C02} TemplateWriter.WriteString TemplateWriter.Write
+// only the HTML-aware truncation filters, block.Super and macros hand back values marked safe; the mark is set at construction only
+//@ callers {C02} AsSafeValue filterTruncateHTMLHelper filterTruncatecharsHTML filterTruncatewordsHTML (tagBlockInformation).Super (*tagMacroNode).call
+//@ writers {C02} F|Value|safe AsSafeValue (*variableResolver).resolve
+//@ writers {C02} F|Value|val
+// the autoescape mode changes only inside an explicit {% autoescape %} region, which restores it
+//@ writers {C02} F|ExecutionContext|Autoescape (*tagAutoescapeNode).Execute
+//@ func (*tagAutoescapeNode).Execute
+//@   ensures {C02} @mode-restored-after-the-region r0 == nil ==> ctx.Autoescape == old(ctx.Autoescape)
+//@ func (*nodeVariable).Execute
+//@   at FilterFunction requires {C02} @the-escape-filter (has(filters, "escape") ==> callee == filters["escape"]) && arg0 == lastresult("IEvaluator.Evaluate")
+//@   at TemplateWriter.WriteString requires {C02} @escaped-unless-opted-out (ctx.Autoescape && !lastresult("IEvaluator.FilterApplied") && !lastresult("IEvaluator.Evaluate").safe && (VIsString(lastresult("IEvaluator.Evaluate")) || lastresult("(*Value).isStringer"))) ==> (calls("FilterFunction") == 1 && arg1 == VString(lastresult("FilterFunction")))
+//@   at IEvaluator.FilterApplied requires {C02} @asks-for-the-safe-filter arg1 == "safe"
+//@ func (*tagFirstofNode).Execute
+//@   at TemplateWriter.WriteString requires {C02} @escaped-unless-the-safe-filter-is-written (ctx.Autoescape && !lastresult("IEvaluator.FilterApplied")) ==> arg1 == VString(lastresult("ApplyFilter"))
+//@   at ApplyFilter requires {C02} @the-escape-filter arg0 == "escape" && arg1 == lastresult("IEvaluator.Evaluate")
+//@   at IEvaluator.FilterApplied requires {C02} @asks-for-the-safe-filter arg1 == "safe" && arg0 == arg
+//@ func (*tagCycleNode).print
+//@   at FilterFunction requires {C02} @the-escape-filter (has(filters, "escape") ==> callee == filters["escape"]) && arg0 == val
+//@   at TemplateWriter.WriteString requires {C02} @escaped-unless-opted-out (ctx.Autoescape && !lastresult("IEvaluator.FilterApplied") && !val.safe && (VIsString(val) || lastresult("(*Value).isStringer"))) ==> (calls("FilterFunction") == 1 && arg1 == VString(lastresult("FilterFunction")))
+//@   at IEvaluator.FilterApplied requires {C02} @asks-for-the-safe-filter arg1 == "safe" && arg0 == item
+//@ func (*nodeHTML).Execute
+//@   at TemplateWriter.WriteString requires {C02} @template-text arg1 == n.token.Val || arg1 == lastresult("strings.TrimLeft") || arg1 == lastresult("strings.TrimRight")
+//@   at strings.TrimLeft requires {C02} @of-the-template-text arg0 == n.token.Val
+//@ func (*tagTemplateTagNode).Execute
+//@   at TemplateWriter.WriteString requires {C02} @template-text arg1 == node.content
+//@ func (*tagSSINode).Execute
+//@   at TemplateWriter.WriteString requires {C02} @file-content-read-at-compile-time arg1 == node.content
+//@ func (*tagNowNode).Execute
+//@   at TemplateWriter.WriteString requires {C02} @formatted-time arg1 == lastresult("(time.Time).Format")
+//@ func (*tagWidthratioNode).Execute
+//@   at TemplateWriter.WriteString requires {C02} @a-number arg1 == lastresult("fmt.Sprintf")
+//@   at fmt.Sprintf requires {C02} @decimal-integer arg0 == "%d" && len(arg1) == 1 && typeis(arg1[0], "int")
+//@ func (*tagSpacelessNode).Execute
+//@   at (*NodeWrapper).Execute requires {C02} @body-rendered-under-the-same-rules arg1 == ctx
+//@   at TemplateWriter.WriteString requires {C02} @body-output-with-whitespace-removed arg1 == s
+//@ func (*tagIfchangedNode).Execute
+//@   at TemplateWriter.Write requires {C02} @body-output arg1 == bufBytes && bufBytes == lastresult("(*bytes.Buffer).Bytes")
+//@ func (*tagFilterNode).Execute
+//@   at TemplateWriter.WriteString requires {C02} @no-context-parameter-reaches-the-output-raw calls("IEvaluator.Evaluate") == 0
+//@ func (*tagLoremNode).Execute
+//@   at TemplateWriter.WriteString requires {C02} @fixed-filler-text arg1 == "\n" || arg1 == " " || arg1 == "<p>" || arg1 == "</p>" || (exists i int :: 0 <= i && i < len(tagLoremParagraphs) && arg1 == tagLoremParagraphs[i]) || (exists i int :: 0 <= i && i < len(tagLoremWords) && arg1 == tagLoremWords[i])
+// The Execute methods of evaluators print their value raw. They exist because IEvaluator embeds INode; no
+// template tree contains an evaluator as a node: node lists are filled only by parseDocument/WrapUntilTag with
+// the results of parseDocElement (clauses below), which yields HTML nodes, {{ }} nodes (nodeVariable) and tag nodes.
+//@ func (*Expression).Execute
+//@   flag not-a-template-node
+//@ func (*relationalExpression).Execute
+//@   flag not-a-template-node
+//@ func (*simpleExpression).Execute
+//@   flag not-a-template-node
+//@ func (*term).Execute
+//@   flag not-a-template-node
+//@ func (*power).Execute
+//@   flag not-a-template-node
+//@ func (*stringResolver).Execute
+//@   flag not-a-template-node
+//@ func (*intResolver).Execute
+//@   flag not-a-template-node
+//@ func (*floatResolver).Execute
+//@   flag not-a-template-node
+//@ func (*boolResolver).Execute
+//@   flag not-a-template-node
+//@ func (*variableResolver).Execute
+//@   flag not-a-template-node
+//@ func (*nodeFilteredVariable).Execute
+//@   flag not-a-template-node
+//@ func (*Parser).parseDocElement
+//@   ensures {C02} @only-html-variable-and-tag-nodes r1 == nil ==> (typeis(r0, "*nodeHTML") || typeis(r0, "*nodeVariable") || r0 == lastresult("(*Parser).parseTagElement"))
+//@ func (*Parser).parseDocument
+//@   at append[INode] requires {C02} @document-nodes-come-from-parseDocElement elem == node && node == lastresult("(*Parser).parseDocElement")
+//@ writers {C02} F|nodeDocument|Nodes (*Parser).parseDocument
+//@ writers {C02} F|NodeWrapper|nodes (*Parser).WrapUntilTag
+// the safe opt-out is syntactic: only a filter named exactly so in the printed expression's own chain counts
+//@ func (*nodeFilteredVariable).FilterApplied
+//@   ensures {C02} @only-a-filter-written-in-the-chain r0 ==> (exists i int :: 0 <= i && i < len(v.filterChain) && v.filterChain[i].name == name)
+//@ func (*variableResolver).FilterApplied
+//@   ensures {C02} @names-carry-no-opt-out !r0
+//@ func (*stringResolver).FilterApplied
+//@   ensures {C02} @literals-carry-no-opt-out !r0
